@@ -175,24 +175,26 @@ structure Impl where
 /-! ### Prop clauses -/
 
 /-- C02: identity `Pr A Pc = L U` within `g(n+2)|L||U|` (exactly when `exact`), shapes, bounds -/
-def propFactors (c : Case) (I : Impl) (u : Rat) (exact : Bool) : Option String := Id.run do
+def propFactors (c : Case) (I : Impl) (u : Rat) (exact : Bool) (lead : Option Nat := none) : Option String := Id.run do
   let eps := epsOf c
   let n := I.n; let m := I.m
   let ipc := invPerm I.permC
   let ipr := invPerm I.permR
+  -- `lead = some k`: only the leading k columns (a singular return: the pivots found before the reported column)
+  let nc := match lead with | some k => min k n | none => n
   let bnd := gam eps (n + 2) * (if c.isComplex then 4 else 1)
   let tiny : Rat := if c.isDouble then pow2 (-1000) else pow2 (-120)
   -- dense L (m x n) and U (n x n) as read out of the storage
   let Lm : Array (Array Q) := (Array.range m).map fun i => (Array.range n).map fun k => I.fac.decodeL i k
   let Um : Array (Array Q) := (Array.range n).map fun k => (Array.range n).map fun j => I.fac.decodeU k j
-  for k in List.range n do
-    if (Um[k]!)[k]! = 0 then return some s!"U({k},{k}) = 0 although info = 0"
+  for k in List.range nc do
+    if (Um[k]!)[k]! = 0 then return some s!"U({k},{k}) = 0 {if lead.isSome then "before the reported column" else "although info = 0"}"
   -- with u = 0 (legal: any nonzero diagonal is accepted) there is no multiplier bound
   let lim : Rat := (if c.isComplex then 2 else 1) / u * (1 + 4 * eps)
   for i in List.range m do
-    for k in List.range n do
+    for k in List.range nc do
       if u > 0 ∧ i > k ∧ qabs ((Lm[i]!)[k]!) > lim then return some s!"|L({i},{k})| exceeds 1/u"
-  for j in List.range n do
+  for j in List.range nc do
     let col := denseCol I.F (ipc.getD j 0)       -- column j of A*Pc
     for i in List.range m do
       -- (Pr A Pc)(i, j) = A(ipr i, ipc j)
@@ -332,7 +334,18 @@ def handle (c : Case) : Res := Id.run do
         if ¬ vs.all (fun b => b == 0 || b == 0x8000000000000000 || b == 0x80000000) then
           return Res.propFalse s!"info = {info} but a candidate of that column is not exactly zero" tags
       | none => return Res.propFalse s!"info = {info} but no zero-pivot event for column {info - 1}" tags
-      -- the leading pivots form a valid factorization of the leading block: exact identity on certified cases
+      -- the leading pivots form a valid factorization of the leading columns: the identity Pr A Pc = L U restricted to the
+      -- columns before the reported one (exact on certified cases, within the rounding bound otherwise).  Only when the
+      -- returned storage can be read at all (what lies beyond the reported column is covered by an open finding).
+      if path != "gssvx" ∧ info ≥ 2 ∧ isPermArr permRi m then
+        match decodeFac c with
+        | some fac =>
+          if (Struct.wfSC fac).isNone then
+            let I : Impl := { m := m, n := n, F := F, permC := permC, permR := permRi.map Int.toNat, fac := fac, info := info }
+            match propFactors c I u certified (some (info - 1)) with
+            | some msg => return Res.propFalse s!"info = {info}: the columns before the reported one are not a valid factorization: {msg}" tags
+            | none => pure ()
+        | none => pure ()
       return Res.ok (n ≥ 2) tags (if certified then "exact" else "tolerance")
     else
       -- success: never a zero on U's diagonal
